@@ -598,3 +598,10 @@ silent("C03", "multiset-window-test-positive", [E(MULTI, "numba_build_multi_skip
 """)], "the same selection with the arms exchanged and the test positive")
 fire("C03", "window-args-always-doubled", "R3.8", E(BASE, "BaseCooccurrenceVectorizer.__init__", '                self._window_args.append(tuple(args.values()))\n                if self.window_orientations[i] == "directional":', '                self._window_args.append(tuple(args.values()))\n                if True:'),
      "every orientation gets two window-argument entries")
+
+# --- C10: last-element read (seeded r2_C10)
+fire("C10", "tail-copy-unguarded", "R10.8", E(MG, "contract_pair", "    if not skip_char and len_char_list > 0:", "    if not skip_char:"),
+     "seeded r2_C10: an empty code array reads char_list[-1]")
+silent("C10", "tail-copy-guard-nested", E(MG, "contract_pair", "    if not skip_char and len_char_list > 0:\n        new_char_list[new_char_index] = char_list[len_char_list - 1]\n        new_char_index += 1\n",
+                                          "    if len_char_list > 0:\n        if not skip_char:\n            new_char_list[new_char_index] = char_list[len_char_list - 1]\n            new_char_index += 1\n"),
+       "the same guard as a nested if")
